@@ -61,6 +61,7 @@ REQUIRED = [
     "pickle:sectioned_tuple_crossed", "pickle:origin_spanning_area_crossed", "pickle:origin_spanning_cds_crossed",
     "pickle:all_three_sections_filled", "pickle:genes_added_in_worker", "pickle:skip_set_in_worker",
     "grid:arith_complete", "grid:cpus1_cells", "children_clean",
+    "op:plain_equal_with_calls_returning_nothing", "op:plain_equal_with_default_workers_of_1_core_machine",
 ]
 
 KS = list(range(1, 17))
@@ -328,6 +329,15 @@ def gen_plan(ctx, round_index, quick):  # pylint: disable=too-many-locals,too-ma
                          "verbose": rng.random() < 0.5})
 
     # hazards: each plan runs in its own child with its own watchdog
+    # functions whose return value is plain (nothing at all for some calls, as of a function working by side effect
+    # or a lookup without an answer), also with the number of workers left to the default of a machine of m cores
+    plain_rng = ctx.rng("plain", round_index)
+    for k in (1, 2, 5, 16):
+        for n in (2, k + 1, 3 * k):
+            main.append({"sid": sid("n"), "kind": "plain", "k": k, "n": n,
+                         "delays": gen_delays(plain_rng, n, pick_pattern(plain_rng)), "via_config": plain_rng.random() < 0.3})
+    for machine in (1, 2, 3):
+        main.append({"sid": sid("n"), "kind": "plain", "k": machine, "n": 4, "delays": [0.0] * 4, "default_of_machine": machine})
     hazards = []
     k = rng.choice([2, 3, 4])
     sleepers = [{"sid": sid("s"), "kind": "sleep", "k": k, "n": k, "sleeps": [2.5] * k, "timeout": 1,
@@ -534,6 +544,22 @@ def check_arith(ctx, book, sc, ev):
     elif n >= 2:
         ctx.count("schedule:completion_order_was_submission_order")
     return not identity and n >= 2
+
+
+def check_plain(ctx, sc, ev):
+    ctx.count("op:plain")
+    facts = base_facts(sc, default_of_machine=sc.get("default_of_machine"))
+    if ev["outcome"] != "returned":
+        ctx.violate("parallel-raised-sequential-returned", dict(facts, exception=ev.get("exc_type"), message=ev.get("exc_msg")), sc)
+        return False
+    expected = [W.plain_value(i) for i in range(sc["n"])]       # the sequential run
+    if ev.get("plain") != expected:
+        ctx.violate("order-or-value-differs", dict(facts, returned=repr(ev.get("plain"))[:200], expected=repr(expected)[:200]), sc)
+        return False
+    ctx.count("op:plain_equal_with_calls_returning_nothing")
+    if sc.get("default_of_machine"):
+        ctx.count(f"op:plain_equal_with_default_workers_of_{sc['default_of_machine']}_core_machine")
+    return True
 
 
 def check_record(ctx, book, sc, ev):  # pylint: disable=too-many-return-statements,too-many-branches
@@ -754,6 +780,8 @@ def check_history(ctx, book, plan, ended, in_flight, status):
             nontrivial = check_arith(ctx, book, sc, ev)
         elif kind == "record":
             nontrivial = check_record(ctx, book, sc, ev)
+        elif kind == "plain":
+            nontrivial = check_plain(ctx, sc, ev)
         elif kind == "raise":
             nontrivial = check_raise(ctx, book, sc, ev)
         elif kind == "sleep":
